@@ -31,6 +31,39 @@ type scratchCtx struct {
 	returns    map[*core.Func]map[int]bool // result k may be scratch-derived
 	busy       map[*core.Func]bool
 	viol       map[string]scratchViol
+	// src: the source of taint (nil: the storage's scratch slices); sameFieldSinks: a store into a field that is itself
+	// a source counts as a sink (used by the sharing analysis, where the source is "field K of any object")
+	src            func(e ast.Expr) bool
+	sameFieldSinks bool
+}
+
+// selfStore: the value stored into field lv is (a re-slice of / an append to) that very field of the same object.
+func (sc *scratchCtx) selfStore(lv *ast.SelectorExpr, rhs ast.Expr) bool {
+	m := sc.m
+	for i := 0; i < 6; i++ {
+		rhs = ast.Unparen(m.StripConv(rhs))
+		switch y := rhs.(type) {
+		case *ast.SliceExpr:
+			rhs = y.X
+			continue
+		case *ast.CallExpr:
+			if m.IsBuiltin(y, "append") && len(y.Args) >= 1 {
+				rhs = y.Args[0]
+				continue
+			}
+		case *ast.SelectorExpr:
+			return fieldKeyOf(m, y) == fieldKeyOf(m, lv) && m.ExprString(y.X) == m.ExprString(lv.X)
+		}
+		return false
+	}
+	return false
+}
+
+func (sc *scratchCtx) isSrc(e ast.Expr) bool {
+	if sc.src != nil {
+		return sc.src(e)
+	}
+	return isScratchField(sc.m, e)
 }
 
 type scratchViol struct {
@@ -119,7 +152,7 @@ func (sc *scratchCtx) tainted(f *core.Func, S string, e ast.Expr) bool {
 	e = ast.Unparen(e)
 	switch x := e.(type) {
 	case *ast.SelectorExpr:
-		return isScratchField(m, x)
+		return sc.isSrc(x)
 	case *ast.Ident:
 		return strings.Contains(S, ","+x.Name+",") && isSliceType(m.Info.TypeOf(x))
 	case *ast.SliceExpr:
@@ -214,7 +247,7 @@ func (sc *scratchCtx) analyse(f *core.Func, symbolic *types.Var) (map[int]bool, 
 							S = setDel(S, lv.Name)
 						}
 					case *ast.SelectorExpr:
-						if t && !isScratchField(m, lv) && m.AccessPath(f, lv).Kind != core.RootFresh {
+						if t && (sc.sameFieldSinks && !sc.selfStore(lv, x.Rhs[i]) || !sc.isSrc(lv)) && m.AccessPath(f, lv).Kind != core.RootFresh {
 							sink(x, facts, fmt.Sprintf("%s stores %s, which is derived from a scratch buffer of the storage, into %s; the field would change when the scratch buffer is used again", f.Name, m.ExprString(x.Rhs[i]), m.ExprString(lv)))
 						}
 					}
